@@ -83,5 +83,15 @@ Definition run_inputs (e : sexp) : sexp :=
         | None => sErr "no such class"
         end)
   | L [A "member_name"; A v] => A (member_name v)
+  | L [A "tables"] =>
+      (* the constants the model hard-wires, printed so that the harness can compare them with
+         ariadne_codegen/client_generators/constants.py and dependencies/base_model.py on every run *)
+      let s := [("Upload", DScalar)] in
+      L [L (map (fun n => L [A n; ann_to_sexp (fst (leaf s [] n))])
+              ["String"; "ID"; "Int"; "Boolean"; "Float"; "Upload"]);
+         ann_to_sexp (AOpt (AList AAny));
+         pyexpr_to_sexp (const_value_node "T" (CObj []) false false);
+         pyexpr_to_sexp (process_field_value (Some (PConst PNone)) "a");
+         L [A "populate_by_name"; A "t"]]
   | _ => sErr "inputs: bad command"
   end.
